@@ -1474,3 +1474,118 @@ func noCallerCodeMidUpdate(c *Ctx, r *Report, rule string) {
 	})
 	r.Floor(rule, "calls between the first index update and the heads store in Join", ncall, 3)
 }
+
+// oneSpellingOfAHash: an identifier has more than one textual form (String, KeyString, Hash().B58String, …).
+// The entry maps of a log are filled from each other — new items into the entry index, a rebuilt predecessor
+// index into the log's own, head sets merged — so all of them are one key space; a plain Go map is its own.
+// Within one key space every key derived from a CID is derived by the same method.
+func oneSpellingOfAHash(c *Ctx, r *Report, rule string) {
+	p := c.P
+	type use struct {
+		fn  *Fn
+		pos token.Pos
+	}
+	spaces := map[string]map[string]use{} // key space -> spelling -> first use
+	names := map[string]string{}
+	var spellOf func(fn *Fn, e ast.Expr, depth int) string
+	spellOf = func(fn *Fn, e ast.Expr, depth int) string {
+		e = ast.Unparen(e)
+		switch x := e.(type) {
+		case *ast.Ident:
+			if v, ok := p.ObjOf(fn, x).(*types.Var); ok && depth < 3 && !v.IsField() {
+				if d := p.SoleDef(fn, v); d != nil {
+					return spellOf(fn, d, depth+1)
+				}
+			}
+		case *ast.CallExpr:
+			se, ok := ast.Unparen(x.Fun).(*ast.SelectorExpr)
+			if !ok || len(x.Args) != 0 {
+				return ""
+			}
+			if t := p.TypeOf(fn, se.X); t != nil && isNamed(t, "github.com/ipfs/go-cid", "Cid") {
+				return se.Sel.Name + "()"
+			}
+			if in := spellOf(fn, se.X, depth); in != "" {
+				return in + "." + se.Sel.Name + "()"
+			}
+		}
+		return ""
+	}
+	note := func(space, name string, fn *Fn, key ast.Expr) {
+		sp := spellOf(fn, key, 0)
+		if sp == "" {
+			return
+		}
+		if spaces[space] == nil {
+			spaces[space] = map[string]use{}
+			names[space] = name
+		}
+		if _, ok := spaces[space][sp]; !ok {
+			spaces[space][sp] = use{fn, key.Pos()}
+		}
+	}
+	nUses := 0
+	for _, fn := range p.Fns {
+		if fn.Body == nil {
+			continue
+		}
+		fn := fn
+		ast.Inspect(fn.Body, func(n ast.Node) bool {
+			switch x := n.(type) {
+			case *ast.CallExpr:
+				cf := p.Callee(fn, x)
+				if cf == nil || len(x.Args) == 0 {
+					return true
+				}
+				rv := cf.Type().(*types.Signature).Recv()
+				if rv == nil || !(isNamed(rv.Type(), p.pkgPath("entry"), "OrderedMap") || isNamed(rv.Type(), p.pkgPath("iface"), "IPFSLogOrderedEntries")) {
+					return true
+				}
+				switch cf.Name() {
+				case "Set", "Get", "UnsafeGet", "Delete":
+					nUses++
+					note("entry maps", "the entry maps", fn, x.Args[0])
+				}
+			case *ast.IndexExpr:
+				t := p.TypeOf(fn, x.X)
+				if t == nil {
+					return true
+				}
+				if _, isMap := t.Underlying().(*types.Map); !isMap {
+					return true
+				}
+				var o types.Object
+				switch b := ast.Unparen(x.X).(type) {
+				case *ast.Ident:
+					o = p.ObjOf(fn, b)
+				case *ast.SelectorExpr:
+					o = p.ObjOf(fn, b.Sel)
+				}
+				if o == nil {
+					return true
+				}
+				nUses++
+				note(p.ID(o), "the map "+o.Name()+" in "+fn.Name, fn, x.Index)
+			}
+			return true
+		})
+	}
+	var ids []string
+	for id := range spaces {
+		ids = append(ids, id)
+	}
+	sort.Strings(ids)
+	for _, id := range ids {
+		var list []string
+		for sp := range spaces[id] {
+			list = append(list, sp)
+		}
+		sort.Strings(list)
+		u := spaces[id][list[len(list)-1]]
+		r.Check(len(list) == 1, rule, r.Key(rule, u.fn, "one-spelling", names[id]), u.pos,
+			"every key of "+names[id]+" derived from an identifier is derived the same way ("+strings.Join(list, "")+")",
+			names[id]+" is keyed by "+fmt.Sprint(len(list))+" different forms of an identifier ("+strings.Join(list, " / ")+"): what was filed under one form is not found under the other — entries that are referenced are taken for unreferenced, or the reverse")
+	}
+	r.Floor(rule, "key spaces with identifier-derived keys", len(ids), 4)
+	r.Floor(rule, "map and entry-map accesses examined", nUses, 20)
+}
